@@ -136,6 +136,10 @@ pub struct Res {
     pub outcome: u64,
 }
 
+fn judge_owned(bytes: &[u8]) -> Vec<String> {
+    judge(bytes)
+}
+
 pub fn judge(bytes: &[u8]) -> Vec<String> {
     Dump::parse(bytes).structural_errors()
 }
@@ -181,6 +185,20 @@ fn run_shape(shape: &Shape, tuples: &[Vec<usize>]) -> Vec<Res> {
 pub fn run(ctx: &Ctx, rep: &mut Report) {
     rep.rule = "target shapes (N in {1,2,3,5,20,21,22,64}(quick) / 1..64 selection (thorough) x 4 named/unnamed mixes x {0,8} descriptors, each with a pattern region, a dlopen'ed ELF with build id and a mapped non-ELF file) x option tuples over 7 dimensions (crash 4, limit 3, sanitize 2, skip 3, app memory 4 (none, one, two, one partially unreadable), user mapping 2, direct auxv 3): full product (1728) at N=3, all tuples with <=2 deviations elsewhere; nontrivial = successful dumps of shapes with both named and unnamed threads or with >=2 option deviations".into();
     if let Some(case) = &ctx.replay {
+        if case.get("family").is_some() {
+            // a hostile-world case shared with C02
+            let Some(c) = crate::checks::c02::Case::from_json(case) else {
+                rep.machinery("bad replay".into());
+                return;
+            };
+            *crate::checks::c02::EXTRA_JUDGE.write().unwrap() = Some(judge_owned);
+            let v = crate::checks::c02::run_standalone(&c);
+            rep.evaluations += 1;
+            for e in v.structure {
+                rep.violation(&format!("hostile/{}/{}", c.family(), classify(&e)), &e, case.clone());
+            }
+            return;
+        }
         let Some(shape) = case.get("shape").and_then(Shape::from_json) else {
             rep.machinery("bad replay shape".into());
             return;
@@ -255,6 +273,27 @@ pub fn run(ctx: &Ctx, rep: &mut Report) {
             }
         }
     }
+    // hostile-world targets and environments (the C02 case list: hostile registers, auxv, linker data,
+    // names, /dev mappings, mutated mapped ELF images, every single libc deviation, the target killed
+    // before every keyed call): whenever such a dump succeeds it must be structurally sound as well
+    *crate::checks::c02::EXTRA_JUDGE.write().unwrap() = Some(judge_owned);
+    let hostile = crate::checks::c02::run_real_cases(ctx.tier.is_thorough());
+    let (mut hok, mut hother) = (0u64, 0u64);
+    for (c, v) in hostile {
+        rep.evaluations += 1;
+        rep.outcome(mdv_core::fnv(format!("hostile{}{}", c.family(), v.kind).as_bytes()));
+        if v.kind == 0 {
+            hok += 1;
+            ok += 1;
+            rep.nontrivial += 1;
+        } else {
+            hother += 1;
+        }
+        for e in v.structure {
+            rep.violation(&format!("hostile/{}/{}", c.family(), classify(&e)), &e, c.to_json());
+        }
+    }
+    rep.set("hostile_world_dumps", json!({"succeeded_and_judged": hok, "not_successful": hother}));
     rep.set("dumps", json!({"succeeded": ok, "returned_error": err, "panicked": pan}));
     if let Some(f) = first_err {
         rep.set("first_unsuccessful_dump", f);
